@@ -59,6 +59,7 @@ namespace parmcb {
 
         // initialize
         std::deque<Vertex> forRemoval;
+        std::size_t removed_r13f = 0;
         VertexIt vi, viend;
         for (boost::tie(vi, viend) = boost::vertices(g); vi != viend; ++vi) {
             auto v = *vi;
@@ -77,6 +78,7 @@ namespace parmcb {
         while (!forRemoval.empty()) {
             Vertex u = forRemoval.front();
             forRemoval.pop_front();
+            removed_r13f++;
             auto uindex = index_map[u];
             exists[uindex] = false;
 
@@ -97,6 +99,9 @@ namespace parmcb {
             }
         }
 
+        if (removed_r13f == n) {                          // R13f positive: pop counter compared with n
+            return;
+        }
         // add remaining vertices into the priority queue
         for (boost::tie(vi, viend) = boost::vertices(g); vi != viend; ++vi) {
             auto v = *vi;
@@ -108,7 +113,7 @@ namespace parmcb {
         }
 
         // main loop
-        while (!heap.empty()) {
+        while (heap.size() > 3) {                         // R13e positive
             auto v = heap.top();
             auto vindex = index_map[v];
             heap.pop();
